@@ -239,6 +239,31 @@ package posix
 // fileToObj only builds the object constructor (a function literal)
 //@ func (*Posix) fileToObj
 //@   frame none
+// C07 / C01: what a listing reports for an object is what is stored with it now: the ETag is the attribute read in this
+// call (for this bucket and path), the size is the file's size (0 for a directory object), the key is the path visited
+// the same for GET and HEAD: the ETag answered is the attribute of this bucket and key read in this call (other calls follow
+// the read, so only its length is compared here; the listing clause below compares every byte)
+//@ func (*Posix) GetObject
+//@   let etagRead = result("meta.MetadataStorer.RetrieveAttribute", 0)
+//@   at-return {C01} [the-etag-answered-is-the-one-stored-with-the-object] when err == nil :: ensures called("meta.MetadataStorer.RetrieveAttribute") \
+//@        && arg("meta.MetadataStorer.RetrieveAttribute", 1) == bucket && arg("meta.MetadataStorer.RetrieveAttribute", 2) == object \
+//@        && arg("meta.MetadataStorer.RetrieveAttribute", 3) == etagkey && ret0.ETag != nil \
+//@        && (result("meta.MetadataStorer.RetrieveAttribute", 1) == nil ==> len(*ret0.ETag) == len(etagRead))
+//@ func (*Posix) HeadObject
+//@   let etagRead = result("meta.MetadataStorer.RetrieveAttribute", 0)
+//@   at-return {C01} [the-etag-answered-is-the-one-stored-with-the-object] when err == nil && old(input.PartNumber == nil) :: ensures called("meta.MetadataStorer.RetrieveAttribute") \
+//@        && arg("meta.MetadataStorer.RetrieveAttribute", 1) == bucket && arg("meta.MetadataStorer.RetrieveAttribute", 2) == object \
+//@        && arg("meta.MetadataStorer.RetrieveAttribute", 3) == etagkey && ret0.ETag != nil \
+//@        && (result("meta.MetadataStorer.RetrieveAttribute", 1) == nil ==> len(*ret0.ETag) == len(etagRead))
+//@ func (*Posix) fileToObj$1
+//@   let etagRead = result("meta.MetadataStorer.RetrieveAttribute", 0)
+//@   at-return {C07,C01} [the-etag-listed-is-the-one-stored-with-the-object] when ret1 == nil :: ensures called("meta.MetadataStorer.RetrieveAttribute") \
+//@        && arg("meta.MetadataStorer.RetrieveAttribute", 1) == bucket && arg("meta.MetadataStorer.RetrieveAttribute", 2) == path \
+//@        && arg("meta.MetadataStorer.RetrieveAttribute", 3) == etagkey \
+//@        && ret0.ETag != nil && len(*ret0.ETag) == len(etagRead) && (forall i int :: 0 <= i && i < len(etagRead) ==> (*ret0.ETag)[i] == etagRead[i])
+//@   at-return {C07,C01} [the-size-listed-is-the-size-of-the-file] when ret1 == nil :: ensures ret0.Size != nil && called("fs.DirEntry.Info") && result("fs.DirEntry.Info", 1) == nil \
+//@        && (called("fs.FileInfo.Size") ==> *ret0.Size == result("fs.FileInfo.Size", 0)) && (!called("fs.FileInfo.Size") ==> *ret0.Size == 0)
+//@   at-return {C07,C01} [the-key-listed-is-the-path-visited] when ret1 == nil :: ensures ret0.Key != nil && *ret0.Key == path
 //@ func (*Posix) ListObjects
 // C04: the walk is rooted in the bucket's own directory through os.DirFS, whose io/fs path validation refuses any
 // name with a dot-dot element (the prefix cannot leave the bucket)
